@@ -8,6 +8,7 @@ import (
 	"go/types"
 	"os"
 	"path/filepath"
+	"regexp"
 	"sort"
 	"strings"
 	"text/template/parse"
@@ -47,7 +48,13 @@ type orderExc struct {
 	// sort erases the input order and may follow a map range. "input-order": ties are possible, the entry's
 	// reason explains why the input order is deterministic — such a sort does not sanitise map-derived input.
 	Order string `json:"order,omitempty"`
+	// Effects is the reviewed set of order-sensitive-looking effects of a range site (normalised, without
+	// positions). The exception excuses exactly these: a body that grows a new kind of effect is reported.
+	Effects []string `json:"effects,omitempty"`
 }
+
+// excEffects[key] = reviewed effect fingerprints of range-site exceptions.
+var excEffects = map[string]map[string]bool{}
 
 // sortClass[key] for the sort: entries of the table.
 var sortClass = map[string]string{}
@@ -69,6 +76,13 @@ func loadOrderExceptions(verif string) (map[string]string, error) {
 			return nil, fmt.Errorf("maporder_exceptions.json: entry %q has no reason", e.Key)
 		}
 		out[e.Key] = e.Reason
+		if len(e.Effects) > 0 {
+			m := map[string]bool{}
+			for _, x := range e.Effects {
+				m[x] = true
+			}
+			excEffects[e.Key] = m
+		}
 		if strings.HasPrefix(e.Key, "sort:") {
 			if e.Order != "unique-key" && e.Order != "input-order" {
 				return nil, fmt.Errorf("maporder_exceptions.json: sort entry %q needs order = unique-key | input-order", e.Key)
@@ -191,8 +205,28 @@ func runC10(c *core.Ctx) error {
 				// exceptions: the whole site, with one reason
 				if why, ok := exc[key]; ok {
 					used[key] = true
-					r1.Justified++
-					r1.Pass(fmt.Sprintf("%s at %s: %d order-sensitive-looking effects, reviewed: %s", key, c.Pos(core.InstrPos(rg)), len(problems), why))
+					var fresh []orderProblem
+					for _, p := range problems {
+						if !excEffects[key][effectFingerprint(p.what)] {
+							fresh = append(fresh, p)
+						}
+					}
+					if os.Getenv("OGENVERIF_TRACE") != "" {
+						for _, p := range problems {
+							fmt.Fprintf(os.Stderr, "EFFECT\t%s\t%s\n", key, effectFingerprint(p.what))
+						}
+					}
+					if len(fresh) == 0 {
+						r1.Justified++
+						r1.Pass(fmt.Sprintf("%s at %s: %d order-sensitive-looking effects, all reviewed: %s", key, c.Pos(core.InstrPos(rg)), len(problems), why))
+						continue
+					}
+					for i, p := range fresh {
+						if i >= 3 {
+							break
+						}
+						r1.Fail(key, c.Pos(p.pos), fmt.Sprintf("iteration over a map (%s) is in the reviewed table, but its body now has an effect the review did not cover: %s", c.Pos(core.InstrPos(rg)), p.what))
+					}
 					continue
 				}
 				for i, p := range problems {
@@ -219,6 +253,7 @@ func runC10(c *core.Ctx) error {
 		checkGlobalWrites(c, r3, prog, p.PkgPath, core.ShortPkg(p.PkgPath))
 	}
 	checkBufferReset(c, r3, prog)
+	checkGlobalMutationDeep(c, r3, prog, an, inScope)
 
 	// ---- R10.4
 	for _, fn := range fns {
@@ -1655,4 +1690,62 @@ func phiFeeds(a, b *ssa.Phi) bool {
 		return false
 	}
 	return walk(b)
+}
+
+// checkGlobalMutationDeep: outside package initialisation nothing inserts into, deletes from or stores through
+// state rooted at a package-level variable — directly, or by handing it to a callee whose summary writes through
+// that argument. (A cached default table that a later generation edits in place leaks from one run into the next.)
+func checkGlobalMutationDeep(c *core.Ctx, r *core.Rule, prog *core.Prog, an *effects.Analysis, inScope func(*ssa.Function) bool) {
+	sites := 0
+	var fns []*ssa.Function
+	for f := range an.Sum {
+		if inScope(f) && !isInitFunc(f) && !inOnceBody(f) {
+			fns = append(fns, f)
+		}
+	}
+	sort.Slice(fns, func(i, j int) bool { return fns[i].String() < fns[j].String() })
+	for _, fn := range fns {
+		for _, b := range fn.Blocks {
+			for _, in := range b.Instrs {
+				call, ok := in.(*ssa.Call)
+				if !ok {
+					continue
+				}
+				if bi, ok := call.Common().Value.(*ssa.Builtin); ok {
+					if bi.Name() == "delete" {
+						sites++
+						if k, root := addrRoot(call.Common().Args[0], 0); k == rootGlobal {
+							r.Fail(fmt.Sprintf("global-mutation:%s:delete:%s", fnKeyFull(fn), root.Name()), c.Pos(call.Pos()), fmt.Sprintf("delete from a map rooted at package-level state %s outside initialisation (in %s): one generation changes what the next one starts from", root.Name(), fn.Name()))
+						}
+					}
+					continue
+				}
+				for _, ce := range an.CalleeEffects(call) {
+					if ce.On == nil {
+						continue
+					}
+					sites++
+					k, root := addrRoot(ce.On, 0)
+					if al, ok := ce.On.(*ssa.Alloc); ok && k != rootGlobal && ce.Effect.Kind == "mapinsert" {
+						// the callee writes through the pointer it was given: what the variable holds matters
+						k, root = allocContentRoot(al, 0, map[*ssa.Phi]bool{})
+					}
+					if k == rootGlobal {
+						r.Fail(fmt.Sprintf("global-mutation:%s:%s:%s", fnKeyFull(fn), core.CalleeName(call.Common()), root.Name()), c.Pos(call.Pos()), fmt.Sprintf("%s writes through its argument (%s), which is rooted at package-level state %s, outside initialisation: one generation changes what the next one starts from", core.CalleeName(call.Common()), ce.Effect.String(), root.Name()))
+					}
+				}
+			}
+		}
+	}
+	r.Note("argument-write / delete sites examined for a package-level root: %d", sites)
+	if sites > 0 {
+		r.Pass(fmt.Sprintf("%d argument-write and delete sites: none rooted at package-level state", sites))
+	}
+}
+
+var posInText = regexp.MustCompile(`[A-Za-z0-9_/.\-]+\.go:\d+`)
+
+// effectFingerprint strips positions from a problem description.
+func effectFingerprint(what string) string {
+	return posInText.ReplaceAllString(what, "<pos>")
 }
